@@ -121,6 +121,18 @@ def r3_bounds_reach_scan(ctx):
         elif (isinstance(v, ast.Constant) and v.value == 0 and d.kind == 'assign') or (isinstance(v, ast.Call) and is_name(v.func, 'len') and v.args and not is_name(v.args[0], got) and d.name not in endvars):
             startvars.add(d.name)         # start <- 0  or  len(prefix)
     startvars -= endvars
+    # plain copies of a bound are the same bound (a helper's parameter)
+    changed = True
+    while changed:
+        changed = False
+        for d in rd.defs:
+            if isinstance(d.value, ast.Name) and d.kind == 'assign' and d.name not in startvars | endvars:
+                if d.value.id in startvars:
+                    startvars.add(d.name)
+                    changed = True
+                elif d.value.id in endvars:
+                    endvars.add(d.name)
+                    changed = True
     need(endvars and startvars, 'C06.R3: scan bounds not recognised (end <- len(got), start <- 0)')
     # searches for a piece on got
     searches = []
